@@ -67,7 +67,7 @@ REQUIRED_REACH = ["tri-template-red", "tri-template-blue1", "tri-template-blue2"
                   "uniform-step-in-history", "line-adaptive-steps", "second-order-adaptive-steps",
                   "parent-reused-after-adaptive", "empty-marked-set-in-every-container"]
 ASSUMPTIONS = [
-    "input meshes are conforming, non-degenerate and straight-sided (generators; quality floor 2^-10)",
+    "input meshes are conforming, non-degenerate and straight-sided (generators; quality floor 2^-10, except the deliberately thin 'needle' tetrahedra)",
     "marked sets are sets of valid cell indices, passed as ndarray or list in any order, possibly listing a cell twice",
     "exact mode: all coordinates are multiples of 2^-45 with |x| <= 64, so the library's midpoints are exact; "
     "otherwise tolerance 1e-12*h + 16 ulp(max|x|) (steps counted under reach tolerance-mode-steps)",
@@ -887,11 +887,40 @@ def pick_marked(rng, nt, how=None):
     return np.unique(np.asarray(m, dtype=np.int64))
 
 
+def needle_tet(rng):
+    """A handful of thin tetrahedra (a small random Delaunay mesh stretched by powers of two, 1 : 2^4 : 2^8 or so):
+    one marked cell makes the conformity closure cascade through many more edges than the mesh has vertices."""
+    import skfem
+    from scipy.spatial import Delaunay
+    for _ in range(100):
+        P = np.unique(G.dyadic(rng, (3, int(rng.integers(5, 9))), bits=int(rng.integers(4, 7))), axis=1)
+        if P.shape[1] < 5:
+            continue
+        try:
+            t = Delaunay(P.T).simplices.T.astype(np.int64)
+        except Exception:
+            continue
+        S = 2.0 ** np.array([-int(rng.integers(4, 8)), -int(rng.integers(0, 3)), int(rng.integers(1, 4))])
+        P2 = P * S[:, None]
+        dets = np.abs(G.simplex_dets(P2, t))
+        t = t[:, dets > 0]
+        if t.shape[1] < 2:
+            continue
+        P2, t = G.clean(P2, t)
+        return skfem.MeshTet1(P2, t), {"gen": "tet", "style": "needle", "stretch": [float(x) for x in S], "ncells": int(t.shape[1])}
+    return None, None
+
+
 def random_case(kind):
     def run(ctx, k):
         rng = ctx.rng()
         mc = random_mesh(rng, kind, ctx)
         mesh = mc.mesh
+        if kind == "tet" and k % 4 == 3:
+            nm, nd = needle_tet(rng)
+            if nm is not None:
+                mesh, mc.desc = nm, nd
+                ctx.reached("needle-tetrahedra")
         if k % 4 == 1:
             # dyadic scaling / integer translation (exact mode still applies): absolute thresholds and the
             # 1e-10 noise of the tetrahedral edge sorting meet cells of size 2^-8 h and offsets of 2^5
